@@ -474,6 +474,14 @@ func c01EntryCreationRule(c *Ctx, rule, consequence string) {
 						}
 						for a, pol := range impliedLiterals(A.EdgeCond(d, k)) {
 							at := A.Atoms[a]
+							// or under `len(attrNames) > 0`: a non-empty list of names of the builder
+							if !pol && at.Kind == "len0" {
+								if u, ok := at.Resolve(at.X).(*ssa.UnOp); ok {
+									if fa, ok := u.X.(*ssa.FieldAddr); ok && fa.X == ssa.Value(fn.Params[0]) && u.Type().String() == "[]string" {
+										underFlag = true
+									}
+								}
+							}
 							if pol && at.Kind == "val" {
 								if u, ok := at.Resolve(at.X).(*ssa.UnOp); ok {
 									if fa, ok := u.X.(*ssa.FieldAddr); ok && fa.X == ssa.Value(fn.Params[0]) {
